@@ -197,6 +197,27 @@ def _trace_module_source_file(module: str) -> str | None:
             sys.path.pop()
 
 
+def _is_opaque_star_import(node: ast.ImportFrom) -> bool:
+    """Whether trace_origin() gives up on what `from module import *` binds."""
+    if node.level or node.module is None:
+        return True
+
+    origin = _trace_module_source_file(node.module)
+    if origin in {"frozen", "built-in"}:
+        return False
+
+    if origin is None or Path(origin).suffix != ".py":
+        return True
+
+    try:
+        with open(origin, "r", encoding="utf-8") as stream:
+            core.parse(stream.read())
+    except (OSError, UnicodeDecodeError, SyntaxError):
+        return True  # The other module cannot be read, or is not valid python
+
+    return False
+
+
 @functools.lru_cache(maxsize=100_000)
 def trace_origin(
     name: str, source: str, *, __all__: bool = False, _depth: int = 0
@@ -432,6 +453,9 @@ def fix_starred_imports(source: str) -> str:
 
     # Remove remaining starred imports
     for node in core.filter_nodes(root.body, template):
+        if _is_opaque_star_import(node):
+            continue  # No name was traced to it because what it binds is not known
+
         if not core.match_template(node, tuple(starred_import_name_mapping)):
             yield node, None
 
